@@ -15,8 +15,8 @@ type (
 		B    bool
 		S    string
 	}
-	Var    struct{ Name string }  // "x" in expression position
-	Global struct{ Name string }  // bare identifier
+	Var    struct{ Name string } // "x" in expression position
+	Global struct{ Name string } // bare identifier
 	App    struct {
 		Fn   Expr
 		Args []Expr
@@ -25,8 +25,8 @@ type (
 		Op   string
 		L, R Expr
 	}
-	Not  struct{ X Expr }
-	Let  struct {
+	Not struct{ X Expr }
+	Let struct {
 		Pat  Pat
 		E    Expr
 		Body Expr
@@ -42,10 +42,10 @@ type (
 		Params []string
 		Body   Expr
 	}
-	For   struct{ Cond, Post, Body Expr }
-	Load  struct{ Ty, E Expr }
-	Store struct{ Ty, Dst, E Expr }
-	Tuple struct{ Es []Expr }
+	For       struct{ Cond, Post, Body Expr }
+	Load      struct{ Ty, E Expr }
+	Store     struct{ Ty, Dst, E Expr }
+	Tuple     struct{ Es []Expr }
 	StructLit struct {
 		New    bool
 		Desc   Expr
@@ -54,8 +54,8 @@ type (
 	Decl struct { // struct.decl [...]
 		Fields []FieldType
 	}
-	Arrow  struct{ Ts []Expr } // (a -> b -> c)%ht
-	Anon   struct{}            // <> used as an argument (binder position of ForSlice)
+	Arrow struct{ Ts []Expr } // (a -> b -> c)%ht
+	Anon  struct{}            // <> used as an argument (binder position of ForSlice)
 )
 
 type FieldInit struct {
